@@ -350,11 +350,16 @@ def create_dummy_in_mem_geff(
         if num_nodes > 0:
             missing[::2] = 1
         prop_dict = {"values": values, "missing": missing}
-        prop_meta = create_props_metadata(prop_name, prop_dict)
         node_props[prop_name] = prop_dict
-        node_prop_meta.append(prop_meta)
-        edge_props_dict[prop_name] = prop_dict
-        edge_prop_meta.append(prop_meta)
+        node_prop_meta.append(create_props_metadata(prop_name, prop_dict))
+        # The edge property has one entry per edge (not per node)
+        edge_values = np.arange(len(edges), dtype="float64")
+        edge_missing = np.zeros(len(edges), dtype=np.bool_)
+        if len(edges) > 0:
+            edge_missing[::2] = 1
+        edge_prop_dict: PropDictNpArray = {"values": edge_values, "missing": edge_missing}
+        edge_props_dict[prop_name] = edge_prop_dict
+        edge_prop_meta.append(create_props_metadata(prop_name, edge_prop_dict))
 
     metadata = create_or_update_metadata(metadata=None, is_directed=directed, axes=axes)
     metadata = add_or_update_props_metadata(metadata, node_prop_meta, "node")
